@@ -38,7 +38,7 @@ def is_mapping_schema(s):
 
 class Gen(object):
     def __init__(self, seed, max_depth=3, normalization=False, pool=None, p_mismatch=0.12,
-                 registries=False, of_rules=True, deps=True, nested_bias=False):
+                 registries=False, of_rules=True, deps=True, nested_bias=False, purge_bias=False):
         self.r = random.Random(seed)
         self.max_depth = max_depth
         self.norm = normalization
@@ -47,6 +47,7 @@ class Gen(object):
         self.of_rules = of_rules
         self.deps = deps
         self.nested_bias = nested_bias
+        self.purge_bias = purge_bias
 
     # ------------------------------------------------------------ values
     def scalar(self):
@@ -261,7 +262,7 @@ class Gen(object):
             rules['rename'] = r.choice(['n1', 'n2', 7] + [s for s in siblings][:2])
         if not key_rules and not small and r.random() < 0.06:
             rules['rename_handler'] = self.coercer(('prefix_x', 'to_str', 'to_int', 'ident', 'fail', 'failrt'))
-        if rules.get('type') == 'dict' and 'schema' in rules and r.random() < 0.25:
+        if rules.get('type') == 'dict' and 'schema' in rules and r.random() < (0.6 if self.purge_bias else 0.25):
             rules['purge_unknown'] = r.choice([True, False])
         if r.random() < 0.08:
             rules['readonly'] = True
@@ -280,7 +281,7 @@ class Gen(object):
         if r.random() < 0.25:
             cfg['ignore_none_values'] = True
         if self.norm:
-            if r.random() < 0.3:
+            if r.random() < (0.6 if self.purge_bias else 0.3):
                 cfg['purge_unknown'] = True
             if r.random() < 0.2:
                 cfg['purge_readonly'] = True
